@@ -218,46 +218,79 @@ def pThousands (cs : List Char) : Except SErr (Thousands × List Char) :=
   else if under && (match r2 with | ',' :: _ => true | _ => false) then .error .commaAndUnderscore
   else .ok (if comma then .comma else if under then .underscore else .none, r2)
 
+/-- the precision part: `.` and a numeral -/
+def pPrec (cs : List Char) : Except SErr (Option Nat × List Char) :=
+  match cs with
+  | '.' :: r =>
+    match accumulate r 0 0 with
+    | none => .error .tooManyDigits
+    | some (np, p, r') => if np = 0 then .error .missingPrecision else .ok (some p, r')
+  | _ => .ok (none, cs)
+
+/-- `InternalFormatSpec` before the presentation type is defaulted and checked against the thousands separator -/
+structure RawSpec where
+  fill : Char
+  align : Char
+  alternate : Bool
+  noNeg0 : Bool
+  sign : Option Char
+  width : Option Nat
+  thousands : Thousands
+  precision : Option Nat
+  type : Option Char
+  deriving DecidableEq, Repr, Inhabited
+
+/-- the scanning part of `parse_internal_render_format_spec` -/
+def parseSyntax (defaultAlign : Char) (spec : List Char) : Except SErr RawSpec :=
+  match pFillAlign defaultAlign spec with
+  | (fill, align, fillSpec, alignSpec, r1) =>
+    match pSign r1 with
+    | (sign, r2) =>
+      match pLit 'z' r2 with
+      | (z, r3) =>
+        match pLit '#' r3 with
+        | (alt, r4) =>
+          match (if fillSpec then (false, r4) else pLit '0' r4 : Bool × List Char) with
+          | (zero, r5) =>
+            match accumulate r5 0 0 with
+            | none => .error .tooManyDigits
+            | some (nw, w, r6) =>
+              match pThousands r6 with
+              | .error e => .error e
+              | .ok (th, r7) =>
+                match pPrec r7 with
+                | .error e => .error e
+                | .ok (p, r8) =>
+                  match r8 with
+                  | _ :: _ :: _ => .error .invalidSpecifier
+                  | rest =>
+                    .ok { fill := if zero then '0' else fill,
+                          align := if zero && !alignSpec && defaultAlign = '>' then '=' else align,
+                          alternate := alt, noNeg0 := z, sign := sign,
+                          width := if nw = 0 then none else some w, thousands := th, precision := p,
+                          type := match rest with | [t] => some t | _ => none }
+
+/-- the end of `parse_internal_render_format_spec`: the default presentation type, and which types go with a thousands
+    separator -/
+def finishSpec (defaultType : Char) (r : RawSpec) : Except SErr ISpec :=
+  let type := r.type.getD defaultType
+  let thOK : Bool :=
+    match r.thousands with
+    | .none => true
+    | th =>
+      if type = 'd' || type = 'e' || type = 'f' || type = 'g' || type = 'E' || type = 'G' || type = '%' || type = 'F'
+          || type = '\x00' then true
+      else if type = 'b' || type = 'o' || type = 'x' || type = 'X' then th = .underscore
+      else false
+  if !thOK then .error .thousandsWithType
+  else .ok { fill := r.fill, align := r.align, alternate := r.alternate, noNeg0 := r.noNeg0, sign := r.sign,
+             width := r.width, thousands := r.thousands, precision := r.precision, type := type }
+
 /-- `parse_internal_render_format_spec(spec, default_type, default_align)` -/
 def parseSpec (defaultType defaultAlign : Char) (spec : List Char) : Except SErr ISpec :=
-  let (fill, align, fillSpec, alignSpec, r1) := pFillAlign defaultAlign spec
-  let (sign, r2) := pSign r1
-  let (z, r3) := pLit 'z' r2
-  let (alt, r4) := pLit '#' r3
-  let (zero, r5) : Bool × List Char := if fillSpec then (false, r4) else pLit '0' r4
-  let fill := if zero then '0' else fill
-  let align := if zero && !alignSpec && defaultAlign = '>' then '=' else align
-  match accumulate r5 0 0 with
-  | none => .error .tooManyDigits
-  | some (nw, w, r6) =>
-    match pThousands r6 with
-    | .error e => .error e
-    | .ok (th, r7) =>
-      let prec : Except SErr (Option Nat × List Char) :=
-        match r7 with
-        | '.' :: r =>
-          match accumulate r 0 0 with
-          | none => .error .tooManyDigits
-          | some (np, p, r') => if np = 0 then .error .missingPrecision else .ok (some p, r')
-        | _ => .ok (none, r7)
-      match prec with
-      | .error e => .error e
-      | .ok (p, r8) =>
-        match r8 with
-        | _ :: _ :: _ => .error .invalidSpecifier
-        | rest =>
-          let type := match rest with | [t] => t | _ => defaultType
-          let thOK : Bool :=
-            match th with
-            | .none => true
-            | _ =>
-              if type = 'd' || type = 'e' || type = 'f' || type = 'g' || type = 'E' || type = 'G' || type = '%' || type = 'F'
-                  || type = '\x00' then true
-              else if type = 'b' || type = 'o' || type = 'x' || type = 'X' then th = .underscore
-              else false
-          if !thOK then .error .thousandsWithType
-          else .ok { fill := fill, align := align, alternate := alt, noNeg0 := z, sign := sign,
-                     width := if nw = 0 then none else some w, thousands := th, precision := p, type := type }
+  match parseSyntax defaultAlign spec with
+  | .error e => .error e
+  | .ok r => finishSpec defaultType r
 
 /-! ### values and `__format__` -/
 
